@@ -97,6 +97,8 @@ pub struct Monitor {
     silent_handshake: bool,
     handshake_wait_ms: Option<u64>,
     idle_ms: Option<u64>,
+    /// the broker stopped reading at this time (C18)
+    stalled_since: Option<u64>,
     healthy: bool,
     completed_rels: Vec<u16>,
     expect_unsolicited: bool,
@@ -167,6 +169,7 @@ impl Monitor {
             silent_handshake: false,
             handshake_wait_ms: None,
             idle_ms: None,
+            stalled_since: None,
             healthy: false,
             completed_rels: vec![],
             expect_unsolicited: false,
@@ -692,7 +695,8 @@ impl Monitor {
 
     fn check_keepalive_error(&mut self, e: &str, now: u64) {
         let ka_err = e.contains("AwaitPingResp") || e.contains("pingreq isn't acked") || e.contains("Last pingreq");
-        if ka_err {
+        // (while the broker is not reading, the client's pings cannot be observed)
+        if ka_err && self.stalled_since.is_none() {
             // no false alarm: the broker must have left a PINGREQ unanswered for a whole interval
             match self.ping_outstanding_since {
                 Some(t) if now - t >= self.keep_alive_ms => {}
@@ -872,9 +876,24 @@ impl Monitor {
         }
     }
 
+    pub fn broker_stalled(&mut self, since: Option<u64>) {
+        self.stalled_since = since;
+    }
+
     fn check_keepalive(&mut self, held: &Held, now: u64) {
         self.idle_ms = None;
         if self.keep_alive_ms == 0 || !held.connected || !self.healthy {
+            return;
+        }
+        if let Some(t) = self.stalled_since {
+            // The broker has stopped reading: what the client writes cannot be observed, but
+            // a broker that reads nothing answers no ping either. A ping is due within one
+            // interval, the failure within two more.
+            self.idle_ms = Some(now.saturating_sub(t).min(4 * self.keep_alive_ms));
+            if now > t + 3 * self.keep_alive_ms {
+                let d = format!("the broker stopped reading at {t}ms; at {now}ms the connection is still not reported as failed (keep-alive {}ms)", self.keep_alive_ms);
+                self.v("stalled_broker_undetected", d);
+            }
             return;
         }
         let since = self.last_ping_ms.unwrap_or(self.conn_started_ms);
@@ -933,7 +952,7 @@ impl Monitor {
             (&self.ledger, &self.sent, &self.broker_pubs),
             (&self.to_client, &self.replies, &self.stale_in),
             (&self.in_aliases, &self.lenient_tags, &self.optional_replies),
-            (self.reconnect_offered_ms, self.silent_handshake, self.errors.len(), self.handshake_wait_ms, self.idle_ms),
+            (self.reconnect_offered_ms, self.silent_handshake, self.errors.len(), self.handshake_wait_ms, self.idle_ms, self.stalled_since.is_some()),
             &self.carry,
             self.resumed,
             self.acks_in_order,
